@@ -41,7 +41,10 @@ fn boundary_ints() -> Vec<i64> {
 
 fn decimal_spellings() -> Vec<String> {
     let mut v = vec![];
-    for s in ["0.5", ".5", "-.5", "+.5", "+1", "+0", "-0", "0.0", "-0.0", "1.0", "1e3", "1E3", "1e+3", "1e-3", "1.5e2", "-1.5e-2", "1e-7", "1e-10", "3e-8", "1e10", "1e37", "-2e36", "1.17549435e-38", "3.4e38", "0.1234567", "1234.567", "123456.7", "0.000001234567", "7.5", "37.5", "0.1", "0.2", "0.3", "1.1", "33.3333", "66.66667", "99.999999", "0.999999", "0.9999999", "1.0000001", "16777217.5", "1000000.5", "0.30000001", "2.5", "750", "375", "1", "2", "3"] {
+    for s in ["0.5", ".5", "-.5", "+.5", "+1", "+0", "-0", "0.0", "-0.0", "1.0", "1e3", "1E3", "1e+3", "1e-3", "1.5e2", "-1.5e-2", "1e-7", "1e-10", "3e-8", "1e10", "1e37", "-2e36", "1.17549435e-38", "3.4e38", "0.1234567", "1234.567", "123456.7", "0.000001234567", "7.5", "37.5", "0.1", "0.2", "0.3", "1.1", "33.3333", "66.66667", "99.999999", "0.999999", "0.9999999", "1.0000001", "16777217.5", "1000000.5", "0.30000001", "2.5", "750", "375", "1", "2", "3",
+        // integers beyond the i32 range (the tokenizer's integer saturates there), long decimals, a zero with a huge exponent
+        "2147483648", "-2147483649", "2147483999", "4294967296", "123456789012", "99999999999999999999", "-4294967297", "0002147483648",
+        "1234567.5", "12345.67", "16777216.0", "12345678e0", "3.14159265", "33.3333333", "0e999", "-0e999", "0e309", "0.0e400", "1e-400"] {
         v.push(s.to_string());
     }
     v
@@ -159,10 +162,18 @@ const EPS: f64 = 1.1920929e-7; // 2^-23
 
 /// Returns (class, detail) of the deviation, if any.
 fn judge_number(input: &T, output: &T, ratio: f32) -> Option<(String, String)> {
-    let (iv, iint, _isign, iunit) = num_parts(input)?;
-    let Some((ov, oint, _osign, ounit)) = num_parts(output) else {
+    let (mut iv, iint, _isign, iunit) = num_parts(input)?;
+    let Some((mut ov, oint, _osign, ounit)) = num_parts(output) else {
         return Some(("not-a-number".into(), format!("{:?} became {:?}", input, output)));
     };
+    // the tokenizer computes a zero with an exponent beyond the single precision range as 0 * infinity: such a token is a zero (the
+    // only spelling that gives "not a number"), whose spelling is compared by `judge_spelling`
+    if iv.is_nan() {
+        iv = 0.;
+    }
+    if ov.is_nan() {
+        ov = 0.;
+    }
     let is_pct = matches!(input, T::Pct { .. });
     if is_pct != matches!(output, T::Pct { .. }) {
         return Some(("kind-changed".into(), format!("{:?} became {:?}", input, output)));
@@ -238,6 +249,89 @@ fn numeric_tokens(css: &str) -> Vec<T> {
     flatten(css).into_iter().filter(|f| f.t.is_numeric()).map(|f| f.t).collect()
 }
 
+/// the numeric tokens with their spelling
+fn numeric_tokens_with_text(css: &str) -> Vec<(T, String)> {
+    flatten(css).into_iter().filter(|f| f.t.is_numeric()).map(|f| (f.t.clone(), css[f.start..f.end].to_string())).collect()
+}
+
+/// the number part of the spelling of a numeric token: (sign, integer digits, fraction digits, exponent)
+fn number_part(text: &str) -> Option<(bool, String, String, i64)> {
+    let b = text.as_bytes();
+    let mut i = 0;
+    let mut neg = false;
+    if i < b.len() && (b[i] == b'+' || b[i] == b'-') {
+        neg = b[i] == b'-';
+        i += 1;
+    }
+    let s0 = i;
+    while i < b.len() && b[i].is_ascii_digit() {
+        i += 1;
+    }
+    let int_digits = text[s0..i].to_string();
+    let mut frac = String::new();
+    if i + 1 < b.len() && b[i] == b'.' && b[i + 1].is_ascii_digit() {
+        let f0 = i + 1;
+        i += 1;
+        while i < b.len() && b[i].is_ascii_digit() {
+            i += 1;
+        }
+        frac = text[f0..i].to_string();
+    }
+    if int_digits.is_empty() && frac.is_empty() {
+        return None;
+    }
+    let mut exp = 0i64;
+    if i < b.len() && (b[i] == b'e' || b[i] == b'E') {
+        let mut j = i + 1;
+        let mut eneg = false;
+        if j < b.len() && (b[j] == b'+' || b[j] == b'-') {
+            eneg = b[j] == b'-';
+            j += 1;
+        }
+        let e0 = j;
+        while j < b.len() && b[j].is_ascii_digit() {
+            j += 1;
+        }
+        if j > e0 {
+            exp = text[e0..j].parse::<i64>().unwrap_or(i64::MAX / 2);
+            if eneg {
+                exp = -exp;
+            }
+        }
+    }
+    Some((neg, int_digits, frac, exp))
+}
+
+/// Exact comparison of the spellings where the tokenizer's single precision value cannot tell: integers (digit strings, any
+/// length) and zeros. Returns a deviation class.
+fn judge_spelling(input: &str, output: &str) -> Option<(String, String)> {
+    let (ineg, iint, ifrac, iexp) = number_part(input)?;
+    let Some((oneg, oint, ofrac, oexp)) = number_part(output) else {
+        return Some(("not-a-number".into(), format!("{:?} became {:?}", input, output)));
+    };
+    let strip = |d: &str| -> String {
+        let t = d.trim_start_matches('0');
+        if t.is_empty() { "0".to_string() } else { t.to_string() }
+    };
+    let is_zero = |i: &str, f: &str| i.bytes().all(|c| c == b'0') && f.bytes().all(|c| c == b'0');
+    if is_zero(&iint, &ifrac) {
+        // a zero stays a zero whatever its exponent says
+        if !is_zero(&oint, &ofrac) {
+            return Some(("zero-changed".into(), format!("{:?} became {:?}", input, output)));
+        }
+        return None;
+    }
+    if ifrac.is_empty() && iexp == 0 {
+        // an integer: the same digits
+        let same = ofrac.bytes().all(|c| c == b'0') && oexp == 0 && strip(&iint) == strip(&oint) && ineg == oneg;
+        if !same {
+            let beyond = strip(&iint).len() > 10 || strip(&iint).parse::<i64>().map_or(true, |v| v > 2147483647 + ineg as i64);
+            return Some((if beyond { "integer-beyond-i32-changed".into() } else { "integer-spelling-changed".into() }, format!("{:?} became {:?}", input, output)));
+        }
+    }
+    None
+}
+
 pub fn explore(thorough: bool, result_path: &str) {
     silence_panics();
     let jobs = build_jobs(thorough);
@@ -254,8 +348,10 @@ pub fn explore(thorough: bool, result_path: &str) {
                 return;
             }
         };
-        let ins = numeric_tokens(&text);
-        let outs = numeric_tokens(&run.normal);
+        let ins_t = numeric_tokens_with_text(&text);
+        let outs_t = numeric_tokens_with_text(&run.normal);
+        let ins: Vec<T> = ins_t.iter().map(|x| x.0.clone()).collect();
+        let outs: Vec<T> = outs_t.iter().map(|x| x.0.clone()).collect();
         rep.count(&format!("ctx:{}", CONTEXTS[job.ctx].0), ins.len() as u64);
         let ctxname = CONTEXTS[job.ctx].0;
         if ins.len() != outs.len() {
@@ -276,7 +372,14 @@ pub fn explore(thorough: bool, result_path: &str) {
             if k % 64 == 0 {
                 rep.outcome(&format!("{:?}", b));
             }
-            if let Some((class, detail)) = judge_number(a, b, job.ratio) {
+            let is_rpx = matches!(a, T::Dim { unit, .. } if unit.eq_ignore_ascii_case("rpx"));
+            let verdict = match judge_number(a, b, job.ratio) {
+                Some(v) => Some(v),
+                // (the token values agree: the spellings decide where single precision cannot)
+                None if !is_rpx => judge_spelling(&ins_t[k].1, &outs_t[k].1),
+                None => None,
+            };
+            if let Some((class, detail)) = verdict {
                 rep.count(&format!("deviation:{}", class), 1);
                 // a minimal sheet with this one number as the replay
                 let mini = sheet_of(job, &sp[k..k + 1]);
@@ -321,7 +424,12 @@ pub fn replay(v: &Value) -> Value {
                 if ins.len() != outs.len() {
                     return vec!["numeric-token-count".into()];
                 }
-                ins.iter().zip(outs.iter()).filter_map(|(a, b)| judge_number(a, b, ratio)).map(|x| format!("{}: {}", x.0, x.1)).collect()
+                let it = numeric_tokens_with_text(text);
+                let ot = numeric_tokens_with_text(&run.normal);
+                ins.iter().zip(outs.iter()).enumerate().filter_map(|(k, (a, b))| {
+                    let is_rpx = matches!(a, T::Dim { unit, .. } if unit.eq_ignore_ascii_case("rpx"));
+                    judge_number(a, b, ratio).or_else(|| if is_rpx { None } else { judge_spelling(&it[k].1, &ot[k].1) })
+                }).map(|x| format!("{}: {}", x.0, x.1)).collect()
             }
             Err((s, m)) => vec![format!("panic {} {}", s, m)],
         }
